@@ -71,6 +71,31 @@ func mkSide[T Num](b *Backend[T], backing string, root []int, idx int) *realSide
 	return s
 }
 
+// allocCFor copies vals into freshly malloc'ed C memory laid out as cdata expects for T (4-byte C ints for int/uint).
+func allocCFor[T Num](b *Backend[T], vals []T) *CBuf {
+	var zero T
+	es := int(sizeofT(zero))
+	switch b.Type {
+	case "int":
+		cb := AllocC(len(vals)*4, "malloc")
+		raw := CSlice[int32](cb, len(vals))
+		for i, v := range vals {
+			raw[i] = int32(v)
+		}
+		return cb
+	case "uint":
+		cb := AllocC(len(vals)*4, "malloc")
+		raw := CSlice[uint32](cb, len(vals))
+		for i, v := range vals {
+			raw[i] = uint32(v)
+		}
+		return cb
+	}
+	cb := AllocC(len(vals)*es, "malloc")
+	copy(CSlice[T](cb, len(vals)), vals)
+	return cb
+}
+
 func sizeofT[T Num](v T) uintptr {
 	switch any(v).(type) {
 	case float64, int64, uint64, int, uint:
@@ -198,11 +223,27 @@ func runProgram[T Num](c *core.Ctx, b *Backend[T], p *AProg, sides []*realSide[T
 					src = side.views[op.Src]
 				} else {
 					buf := append([]T{}, srcSh.st.data...)
+					rootDims := cpInts(srcSh.shape)
 					if op.SrcRoot != nil {
-						src = b.FromSlice(buf, cpInts(op.SrcRoot)).Slice(cpInts(op.SrcLoc), cpInts(srcSh.shape), cpInts(op.SrcStep))
+						rootDims = cpInts(op.SrcRoot)
+					}
+					// the other array may live in the OTHER kind of memory than the destination (a C-backed source for a
+					// Go-backed destination and vice versa): decided by the op's position so that replays agree
+					var srcRoot Arr[T]
+					wide := (b.Type == "int" || b.Type == "uint") && p.Magnitude != "" && p.Backing == "go" // values beyond a 4-byte C int
+					if foreign := (i+len(op.Vals))%3 == 0 && len(buf) > 0 && !wide; foreign && !side.isC && b.FromC != nil {
+						cb := allocCFor(b, buf)
+						defer cb.Free()
+						srcRoot = b.FromC(cb.Ptr, rootDims)
+						c.Tag("source:c-backed-into-go-backed")
+					} else {
+						srcRoot = b.FromSlice(buf, rootDims)
+					}
+					if op.SrcRoot != nil {
+						src = srcRoot.Slice(cpInts(op.SrcLoc), cpInts(srcSh.shape), cpInts(op.SrcStep))
 						c.Tag("source:view-of-another-array")
 					} else {
-						src = b.FromSlice(buf, cpInts(srcSh.shape))
+						src = srcRoot
 					}
 				}
 			}
